@@ -155,17 +155,34 @@ pub fn build(kind: &str, src: &str) -> Result<Built, String> {
 /// A lexer that replays a token list: lexeme i has span (2i, 2i+1), so that the
 /// synthetic end-of-input lexeme (zero length, at the END of the last lexeme)
 /// has an odd start (or start 0 when the input is empty).
+///
+/// SINGLE-SHOT: `lrpar::Lexer::iter` is documented as giving no guarantees when it is called more
+/// than once on a lexer (a streaming lexer hands its lexemes out on the first call only).  The
+/// first `iter()` call of a `ReplayLexer` object yields the lexemes, any later call panics, so that
+/// code under observation that walks the lexer twice cannot go unnoticed.
+///
+/// `faulty[i]` (missing = false) makes lexeme i a LEXER-SUPPLIED faulty lexeme
+/// (`Lexeme::new_faulty`, public API: a lexer doing its own error handling may produce them).
 pub struct ReplayLexer {
     pub toks: Vec<u32>,
     pub spans: Option<Vec<(usize, usize)>>,
+    pub faulty: Vec<bool>,
+    iterated: std::cell::Cell<bool>,
 }
+
+pub const ITER_TWICE_MSG: &str = "harness lexer iterated twice (Lexer::iter gives no guarantees on a second call)";
 
 impl ReplayLexer {
     pub fn new(toks: Vec<u32>) -> Self {
-        ReplayLexer { toks, spans: None }
+        ReplayLexer { toks, spans: None, faulty: Vec::new(), iterated: std::cell::Cell::new(false) }
     }
     pub fn with_spans(toks: Vec<u32>, spans: Vec<(usize, usize)>) -> Self {
-        ReplayLexer { toks, spans: Some(spans) }
+        ReplayLexer { toks, spans: Some(spans), faulty: Vec::new(), iterated: std::cell::Cell::new(false) }
+    }
+    /// mark the lexemes whose flag is set as faulty (lexer-supplied `Lexeme::new_faulty`)
+    pub fn with_faulty(mut self, faulty: Vec<bool>) -> Self {
+        self.faulty = faulty;
+        self
     }
 }
 
@@ -182,13 +199,20 @@ pub fn lexeme_index(l: &Lx) -> usize {
 
 impl Lexer<LT> for ReplayLexer {
     fn iter<'a>(&'a self) -> Box<dyn Iterator<Item = Result<Lx, LRLexError>> + 'a> {
+        if self.iterated.replace(true) {
+            panic!("{}", ITER_TWICE_MSG);
+        }
         let spans = self.spans.clone();
         Box::new(self.toks.iter().enumerate().map(move |(i, t)| {
             let (st, len) = match &spans {
                 Some(sp) => (sp[i].0, sp[i].1 - sp[i].0),
                 None => (2 * i, 1),
             };
-            Ok(Lx::new(*t, st, len))
+            if self.faulty.get(i).copied().unwrap_or(false) {
+                Ok(Lx::new_faulty(*t, st, len))
+            } else {
+                Ok(Lx::new(*t, st, len))
+            }
         }))
     }
 }
